@@ -161,7 +161,8 @@ def run_c20(case, fail):
     if mode == "none":
         cand, cset, ncols = None, unl.tolist(), len(X)
     elif mode == "idx":
-        cand = rs.choice(unl, int(rs.randint(2, len(unl) + 1)), replace=False)
+        pool_ = np.arange(len(X)) if (z["arbitrary_idx"] and case["dseed"] % 2 == 0) else unl     # index candidates may be labeled already
+        cand = rs.choice(pool_, int(rs.randint(2, len(pool_) + 1)), replace=False)
         cset, ncols = sorted(cand.tolist()), len(X)
     else:
         cand = rs.randn(int(rs.randint(2, 6)), 2).round(2)
